@@ -51,6 +51,31 @@ def gen(rng, tier):
                         width = rng.choice(["-", "-", 0, 1, 5, 12, 40, rng.randrange(0, 41), 255])
                         yield f"fmt {s}{cfg} {tr} {fl} {width} {hx(a)}", t
     yield from _wide(rng, tier)
+    yield from _digit_count_boundaries(rng, tier)
+
+
+def _digit_count_boundaries(rng, tier):
+    """10^k and 10^k - 1 for EVERY k below the capacity, decimal traits (Display/Debug/exp): the numerals of
+    every length (added after seeded change C12-r4m1: a digit-count estimate one short from 681 bits on)"""
+    for cfg in ["64x16", "8x17"] + (["64x64"] if tier == "thorough" else []):
+        w, n = wn(cfg)
+        W = w * n
+        M = 1 << W
+        k, p = 1, 10
+        while p < M:
+            for v in (p, p - 1, pat(-p, W)):
+                s = "i" if v >= M // 2 or (k & 1) else "u"
+                tr = TRAITS[[0, 1, 6, 7][(k + (v & 1)) % 4]]
+                yield f"fmt {s}{cfg} {tr} {rng.choice(FLAGS)} {rng.choice(['-', '-', 0, 12, 400])} {hx(v)}", "digit-count-boundary"
+            k += 1
+            p *= 10
+        for tr, r in (("binary", 2), ("octal", 8), ("lower_hex", 16), ("upper_hex", 16)):
+            k, p = 1, r
+            while p < M:
+                for v in (p, p - 1):
+                    yield f"fmt {'ui'[k & 1]}{cfg} {tr} {rng.choice(FLAGS)} {rng.choice(['-', '-', 0, 12, 400])} {hx(v)}", "digit-count-boundary"
+                k += 1
+                p *= r
 
 
 def _wide(rng, tier):
